@@ -133,7 +133,10 @@ class ParseAccepts:
 
 NEAR_GRAMMAR = ['', '.', '1', '1.', '.1', '1.0', '01.10', '1.000000001', '12345678901.0', '1234567890.12345678', '-1.0', '+1.0',
                 '1,0', '1.0.0', ' 1.0', '1.0 ', '1_0.0', '1e3', '1.0e3', '0x1.0', '1..0', 'a.b', '1.a', '١.٠', '1.0\n', '1.0\n\n',
-                '\n1.0', '1\n.0', '1.0\x00', '１.０', '1.٠', 'NaN', 'inf', '1.0\r', '1.0\r\n']
+                '\n1.0', '1\n.0', '1.0\x00', '１.０', '1.٠', 'NaN', 'inf', '1.0\r', '1.0\r\n',
+                # scientific notation, as str(Decimal) writes tiny amounts: not plain decimals, must be refused, never rounded
+                '1E-8', '0E-8', '15E-9', '1E-9', '1.999999999E0', '1E+3', '1E3', '1.5E1', '1.0E0', '1.0e0', 'E', '1E', 'E1', '1.0E',
+                '1.00000000E-1', '-1E-8', '1E-08']
 
 
 @proof("C20", "parse-rejects")
@@ -158,6 +161,15 @@ class ParseRejects:
     def samples():
         for s in NEAR_GRAMMAR:
             yield dict(s=s)
+
+
+@proof("C20", "parse-rejects.lbc_to_dewies")
+class ParseRejectsWrapper(ParseRejects):
+    """the same through the entry point the daemon uses (lbry/wallet/dewies.py lbc_to_dewies): every string outside the accepted
+    language raises ValueError - the wrapper may not widen the language (e.g. by normalising exponents or rounding first)"""
+
+    def run(s):
+        return lbc_to_dewies(s)
 
 
 @proof("C20", "parse-total")
